@@ -24,7 +24,8 @@ Kernel specification (JSON-able):
     "SE" | "RQ" | "WN" | ["+", spec, spec, ...] | ["CP", axis, spec, spec, ...]
 Hyper-parameter layout: concatenation of the components' parameters in the order given; for
 CP the kernels' parameters first, then (location, width) for each change-point.
-Mean specification: "C" (1 parameter) | "L" (1+d) | "Q" (1+2d).
+Mean specification: "C" (1 parameter) | "L" (1+d) | "Q" (1+2d) | "N" (3; a user-defined mean that is non-linear in
+its hyper-parameters, m(x) = exp(a) sin(b x_0 + c), theta = [a, b, c] - used by checks/c17.py).
 """
 import math
 
@@ -69,7 +70,7 @@ def kernel_n_params(spec, d):
 
 
 def mean_n_params(spec, d):
-    return {"C": 1, "L": 1 + d, "Q": 1 + 2 * d}[spec]
+    return {"C": 1, "L": 1 + d, "Q": 1 + 2 * d, "N": 3}[spec]
 
 
 def kernel_param_units(spec, th, d):
@@ -178,6 +179,9 @@ def compile_kernel(spec, th, d):
 def mean_abs_vector(spec, th, X, xbar):
     """sum of the absolute values of the terms of m(x) (rounding scale of the computed mean)"""
     d = len(xbar)
+    if spec == "N":
+        # exp(a) sin(b x_0 + c): the argument is formed to eps (|b x_0| + |c|), the sine to eps
+        return [mp.exp(th[0]) * (1 + abs(th[1] * x[0]) + abs(th[2])) for x in X]
     out = []
     for x in X:
         v = abs(th[0])
@@ -209,8 +213,10 @@ def kernel_matrices(spec, th, X):
 
 
 def mean_vector(spec, th, X, xbar):
-    """m(x) = t0 [+ sum_i t_{1+i} (x_i - xbar_i)] [+ sum_i t_{1+d+i} (x_i - xbar_i)^2]"""
+    """m(x) = t0 [+ sum_i t_{1+i} (x_i - xbar_i)] [+ sum_i t_{1+d+i} (x_i - xbar_i)^2];  "N": exp(t0) sin(t1 x_0 + t2)"""
     d = len(xbar)
+    if spec == "N":
+        return [mp.exp(th[0]) * mp.sin(th[1] * x[0] + th[2]) for x in X]
     out = []
     for x in X:
         v = th[0]
